@@ -71,6 +71,16 @@ def main():
                     "translator: the validators regenerated from validators.py no longer decide as the model does (tie theorem(s) %s fail)"
                     % ", ".join(tv["failed_names"]), {"kind": "translation", "failed": tv["failed"]}, tv["definitions"],
                     "NostrRelay/Model/Admission.lean")
+        if prop == "C18":
+            from lib import translate_validators
+            ti = translate_validators.run_intervals(common.REPO, common.LEAN)
+            report.coverage["translation_tie"] = {
+                "source": "nostr_relay/rate_limiter.py parse_option (table of interval names)", "status": ti["status"],
+                "theorems": ti["theorems"], "failed": ti["failed"], "unavailable": ti["unavailable"]}
+            if ti["failed_names"]:
+                report.correspondence_break("translator: the table of interval names of parse_option no longer equals the model's parseInterval",
+                                            {"kind": "translation", "failed": ti["failed"]}, ti["definitions"],
+                                            "NostrRelay/Model/RateLimiter.lean parseInterval")
         if args.replay:
             mod.replay(report, args.replay)
         else:
